@@ -139,6 +139,8 @@ def run(ctx):
                 for r in cls[1]:
                     bad_sites.add(r["site"])
             ctx.apalache[-1 if what == "honest-fit" else -2]["expected"] = "NoError"
+    # ---- M1 at gadget level: operand classes on which an alternative would pass a weakened width check ------
+    ctx.absorb(ctx.run_driver("c05", {"part": "gadget", "instance": "testdata"}, tag="gadget"), "c05")
     # ---- M1 injection -------------------------------------------------------------------------------------
     rnd = random.Random(ctx.seed * 31 + 5)
     per_inst = {i: [] for i in insts}
